@@ -34,7 +34,6 @@ import (
 	infra "github.com/scionproto/scion/private/segment/verifier"
 	sdb "github.com/scionproto/scion/private/storage/db"
 	pathsqlite "github.com/scionproto/scion/private/storage/path/sqlite"
-	"github.com/scionproto/scion/private/storage/utils"
 
 	"verifharness/vlib"
 )
@@ -71,6 +70,20 @@ func (keyVerifier) Verify(_ context.Context, m *cryptopb.SignedMessage, ad ...[]
 func (v keyVerifier) WithServer(net.Addr) infra.Verifier        { return v }
 func (v keyVerifier) WithIA(addr.IA) infra.Verifier             { return v }
 func (v keyVerifier) WithValidity(cppki.Validity) infra.Verifier { return v }
+
+// lastVersion reads the version of a path segment — the signing time (ns) of its last AS
+// entry — directly from the signed header, independently of the store's own helper
+// (private/storage/utils), so that a change there cannot also change the reference.
+func lastVersion(ps *seg.PathSegment) (int64, error) {
+	if len(ps.ASEntries) == 0 {
+		return 0, fmt.Errorf("no AS entries")
+	}
+	hdr, err := signed.ExtractUnverifiedHeader(ps.ASEntries[len(ps.ASEntries)-1].Signed)
+	if err != nil {
+		return 0, err
+	}
+	return hdr.Timestamp.UnixNano(), nil
+}
 
 type ident struct {
 	ias []addr.IA
@@ -130,9 +143,12 @@ func mkSeg(ids []ident, k segKey) *segInfo {
 	}
 	info.seg = ps
 	info.id, info.full = id16(ps.ID()), id16(ps.FullID())
-	v, err := utils.ExtractLastHopVersion(ps)
+	v, err := lastVersion(ps)
 	if err != nil {
 		panic(err)
+	}
+	if v != k.ver {
+		panic(fmt.Sprintf("signing time %d read back as %d", k.ver, v))
 	}
 	info.ver, info.maxExp = v, ps.MaxExpiry().Unix()
 	segCache[k] = info
@@ -286,8 +302,12 @@ func main() {
 
 func (h *history) pickSeg(bad bool) *segInfo {
 	r := h.r
+	ver := (base + int64(r.Intn(5))*10) * 1e9
+	if r.Chance(35) { // versions inside / around one wall-clock second (stored granularity: ns)
+		ver = (base+50)*1e9 + []int64{0, 1, 400_000_000, 999_000_000, 1_000_000_000}[r.Intn(5)]
+	}
 	return mkSeg(h.ids, segKey{ident: r.Intn(len(h.ids)), infoTS: base + int64(r.Intn(4))*100,
-		ver: (base + int64(r.Intn(5))*10) * 1e9, exp: uint8(r.Intn(3)), bad: bad})
+		ver: ver, exp: uint8(r.Intn(3)), bad: bad})
 }
 
 func (h *history) peer(g *hiddenpath.Group, role int) addr.IA {
@@ -408,7 +428,7 @@ func (h *history) op() {
 				for _, y := range gs {
 					g = append(g, fmt.Sprint(y))
 				}
-				v, _ := utils.ExtractLastHopVersion(x.Seg)
+				v, _ := lastVersion(x.Seg)
 				id := id16(x.Seg.ID())
 				if row := h.ref[id]; row == nil || !row.groups[0] {
 					hiddenSeen = append(hiddenSeen, id)
@@ -621,7 +641,7 @@ func (h *history) serve() {
 		}
 		out := []string{}
 		for _, m := range metas {
-			v, _ := utils.ExtractLastHopVersion(m.Segment)
+			v, _ := lastVersion(m.Segment)
 			out = append(out, fmt.Sprintf("%s/%s/%d/%d", id16(m.Segment.ID()), id16(m.Segment.FullID()), v, m.Type))
 		}
 		sort.Strings(out)
